@@ -393,11 +393,11 @@ func refreshCase(c *hx.Ctx, k int, r *rand.Rand) {
 			return
 		}
 		tid, _, rest, err := refipfix.ParseTemplateRecord(m.Body)
-		if err != nil || len(rest) != 0 {
-			c.Violation(k, "template-malformed", fmt.Sprintf("datagram %d: %v, %d trailing bytes", i, err, len(rest)), nil)
+		if err != nil || !refipfix.SameBody(rest, nil, 4) {
+			c.Violation(k, "template-malformed", fmt.Sprintf("datagram %d: %v, %d trailing bytes that are not set padding", i, err, len(rest)), nil)
 			return
 		}
-		if w, ok := want[tid]; !ok || !bytes.Equal(w, m.Body) {
+		if w, ok := want[tid]; !ok || !refipfix.SameBody(m.Body, w, 4) {
 			cls := "template-bytes"
 			if i >= nt {
 				cls = "refreshed-template-bytes"
